@@ -182,6 +182,70 @@ func C13_Isolation() {
 	vf.Reach("iso-ok")
 }
 
+// export expression forms whose value is an array or a map
+var exportForms = []string{
+	`[1, 2]`, `{k: 1}`, `base`, `mp`, `(base)`, `base + extra`, `base + []`, `mp || {d: 1}`, `undefined || base`, `false || {d: 2}`,
+	`true && base`, `1 && mp`, `x ? base : mp`, `!x ? [1] : {k: 2}`, `base[0:1]`, `base[:]`, `[base][0]`, `{k: base}.k`, `{k: mp}["k"]`,
+	`(func() { return [1] })()`, `(func() { return mp })()`, `copy(base)`, `append(base, 4)`, `splice(copy(base), 0, 1)`,
+	`immutable(base)`, `immutable(mp)`, `import("n")`, `[import("n")][0]`, `x ? import("n") : base`,
+}
+
+// C13_ExportImmutable: whatever expression a module exports, an array or map
+// arrives immutable at the importer (and stays so when imported a second time).
+func C13_ExportImmutable() {
+	form := exportForms[vf.Choice("form", len(exportForms))]
+	x := vf.Bool("x")
+	mods := tengo.NewModuleMap()
+	xs := "false"
+	if x {
+		xs = "true"
+	}
+	mods.AddSourceModule("m", []byte("x := "+xs+"; base := [1, 2]; extra := [3]; mp := {k: 1}\nexport "+form))
+	mods.AddSourceModule("n", []byte(`export [1]`))
+	s := tengo.NewScript([]byte(`m := import("m"); m2 := import("m")`))
+	s.SetImports(mods)
+	c, err := s.Compile()
+	vf.Assert(err == nil, "module exporting `"+form+"` compiles")
+	rerr, panicked, _ := RunGuarded(c)
+	vf.Assert(rerr == nil && !panicked, "importing a module exporting `"+form+"` runs")
+	for _, name := range []string{"m", "m2"} {
+		switch c.Get(name).Object().(type) {
+		case *tengo.Array, *tengo.Map:
+			vf.Fail("`export " + form + "` hands the importer a mutable value")
+		case *tengo.ImmutableArray, *tengo.ImmutableMap:
+		default:
+			vf.Fail("`export " + form + "` did not yield an array or map")
+		}
+	}
+	vf.Reach("export-immutable")
+}
+
+// distinct module names, several of which denote the same path after cleaning
+var modNames = []string{"util", "./util", "util/", "lib/x", "lib/sub/../x", "lib//x", "./lib/x", "Util", "util.tengo", "../util", "/util"}
+
+// C13_Names: every module-map name is its own module: importing two names in
+// one compilation yields each one's export, in both orders, also through a
+// third module.
+func C13_Names() {
+	i := vf.Choice("first", len(modNames))
+	j := vf.Choice("second", len(modNames))
+	mods := tengo.NewModuleMap()
+	for k, n := range modNames {
+		mods.AddSourceModule(n, []byte("export "+strconv.Itoa(100+k)))
+	}
+	mods.AddSourceModule("via", []byte(`export import("`+modNames[j]+`")`))
+	s := tengo.NewScript([]byte(`p := import("` + modNames[i] + `"); q := import("` + modNames[j] + `"); r := import("via"); p2 := import("` + modNames[i] + `")`))
+	s.SetImports(mods)
+	c, err := s.Compile()
+	vf.Assert(err == nil, "two module-map names compile: "+modNames[i]+", "+modNames[j])
+	rerr, panicked, _ := RunGuarded(c)
+	vf.Assert(rerr == nil && !panicked, "two module-map names run")
+	vf.Assert(c.Get("p").Int() == 100+i && c.Get("p2").Int() == 100+i, "import(\""+modNames[i]+"\") yields that module's export")
+	vf.Assert(c.Get("q").Int() == 100+j, "import(\""+modNames[j]+"\") yields that module's export (after importing \""+modNames[i]+"\")")
+	vf.Assert(c.Get("r").Int() == 100+j, "a module importing \""+modNames[j]+"\" gets that module's export")
+	vf.Reach("names")
+}
+
 // fixed larger graphs (module i imports the listed modules; main imports mainImports)
 type graphShape struct {
 	name        string
